@@ -122,6 +122,56 @@ def _numbering_rule(fn):
     return out
 
 
+def _field_eval(fn):
+    """the statements of `_parse_with_formatting` that evaluate one replacement field, after the numbering, as an
+    ordered list of steps checked by DATA FLOW (any local names): lookup -> convert -> expand the spec (sharing
+    auto_arg_index) -> format_field -> feed.  `fn` has canonical loop variables (`_canon_loop`)."""
+    loop = [n for n in ast.walk(fn) if isinstance(n, ast.For)][0]
+    fld = [s for s in loop.body if isinstance(s, ast.If) and ast.unparse(s.test) == "field_name is not None"]
+    if len(fld) != 1:
+        raise Unsupported("field branch of " + fn.name)
+    stmts = fld[0].body
+    start = [i for i, s in enumerate(stmts) if "formatter.get_field(" in ast.unparse(s)]
+    if len(start) != 1:
+        raise Unsupported("formatter.get_field is not called exactly once")
+    obj, spec, out, steps = None, "format_spec", None, []
+
+    def names(t):
+        return [e.id for e in t.elts] if isinstance(t, ast.Tuple) and all(isinstance(e, ast.Name) for e in t.elts) else \
+            ([t.id] if isinstance(t, ast.Name) else None)
+    for st in stmts[start[0]:]:
+        if not (isinstance(st, (ast.Assign, ast.Expr)) and isinstance(st.value, ast.Call)):
+            raise Unsupported("field evaluation statement " + ast.unparse(st)[:80])
+        c = st.value
+        f = ast.unparse(c.func)
+        a = [ast.unparse(x) for x in c.args]
+        kw = {k.arg: ast.unparse(k.value) for k in c.keywords}
+        tg = names(st.targets[0]) if isinstance(st, ast.Assign) and len(st.targets) == 1 else None
+        if f == "formatter.get_field" and a == ["field_name", "args", "kwargs"] and not kw and tg and len(tg) == 2:
+            obj = tg[0]
+            steps.append("lookup")
+        elif f == "formatter.convert_field" and a == [obj, "conversion"] and not kw and tg and len(tg) == 1:
+            obj = tg[0]
+            steps.append("convert")
+        elif f == "Colorizer." + fn.name and a == [spec, "args", "kwargs"] and kw.get("auto_arg_index") == "auto_arg_index" \
+                and set(kw) == {"recursion_depth", "auto_arg_index", "recursive"} and tg and len(tg) == 2 and tg[1] == "auto_arg_index":
+            spec = tg[0]
+            steps.append("expand")
+        elif f in ("formatter.format_field", "format") and a == [obj, spec] and not kw and tg and len(tg) == 1:
+            # Formatter.format_field(value, spec) IS format(value, spec)
+            out = tg[0]
+            steps.append("format")
+        elif f == "parser.feed" and a == [out] and isinstance(st, ast.Expr):
+            steps.append("feed")
+        else:
+            raise Unsupported("field evaluation statement (data flow) " + ast.unparse(st)[:100])
+    if sorted(steps) != sorted(["lookup", "convert", "expand", "format", "feed"]):
+        raise Unsupported("field evaluation steps: %r" % steps)
+    out_ = "/-- the statements of `_parse_with_formatting` evaluating one replacement field, in source order -/\n"
+    out_ += "def fieldEval : List EvalStep := [%s]\n\n" % ", ".join("EvalStep." + x for x in steps)
+    return out_
+
+
 def _feed_rules(fn, tag):
     """which texts `_parse_*_formatting` hands to the markup parser verbatim (`raw=`): the literal text
     of the template (raw exactly in recursive calls, i.e. inside format specs), the formatted value /
@@ -386,6 +436,171 @@ def _field_parts(fn, cls):
     return out
 
 
+# ----------------------------------------------------------------------------- Round 5: Logger._log argument preparation
+def _prep_cond(node):
+    """guards of the preparation blocks of Logger._log over the option flags and the truthiness of args/kwargs"""
+    if isinstance(node, ast.BoolOp):
+        sym = " && " if isinstance(node.op, ast.And) else " || "
+        return "(" + sym.join(_prep_cond(v) for v in node.values) + ")"
+    if isinstance(node, ast.UnaryOp) and isinstance(node.op, ast.Not):
+        return "(!%s)" % _prep_cond(node.operand)
+    if isinstance(node, ast.Name) and node.id in ("lazy", "capture", "record", "colors"):
+        return node.id
+    if isinstance(node, ast.Name) and node.id in ("args", "kwargs"):
+        return "hasArgs" if node.id == "args" else "hasKwargs"
+    raise Unsupported("preparation guard " + ast.unparse(node))
+
+
+def _guarded(st):
+    """one top-level statement of _log -> (guard expression | None, [statements]); understands
+    `if g: body` (no else) and `x = <value> if g else x`"""
+    if isinstance(st, ast.If) and not st.orelse:
+        return st.test, list(st.body)
+    if isinstance(st, ast.Assign) and len(st.targets) == 1 and isinstance(st.targets[0], ast.Name) \
+            and isinstance(st.value, ast.IfExp) and isinstance(st.value.orelse, ast.Name) \
+            and st.value.orelse.id == st.targets[0].id:
+        return st.value.test, [ast.copy_location(ast.Assign(targets=st.targets, value=st.value.body), st)]
+    return None, [st]
+
+
+def _lazy_part(st):
+    """`args = [f() for f in args]` -> 'args'; `kwargs = {k: v() for k, v in kwargs.items()}` -> 'kwargs'"""
+    if not (isinstance(st, ast.Assign) and len(st.targets) == 1 and isinstance(st.targets[0], ast.Name)):
+        return None
+    tgt, v = st.targets[0].id, st.value
+    if tgt == "args" and isinstance(v, ast.ListComp) and len(v.generators) == 1:
+        g = v.generators[0]
+        if (isinstance(g.target, ast.Name) and not g.ifs and ast.unparse(g.iter) == "args" and isinstance(v.elt, ast.Call)
+                and isinstance(v.elt.func, ast.Name) and v.elt.func.id == g.target.id and not v.elt.args and not v.elt.keywords):
+            return "args"
+    if tgt == "kwargs" and isinstance(v, ast.DictComp) and len(v.generators) == 1:
+        g = v.generators[0]
+        if (isinstance(g.target, ast.Tuple) and len(g.target.elts) == 2 and all(isinstance(e, ast.Name) for e in g.target.elts)
+                and not g.ifs and ast.unparse(g.iter) == "kwargs.items()" and isinstance(v.key, ast.Name)
+                and v.key.id == g.target.elts[0].id and isinstance(v.value, ast.Call) and isinstance(v.value.func, ast.Name)
+                and v.value.func.id == g.target.elts[1].id and not v.value.args and not v.value.keywords):
+            return "kwargs"
+    return None
+
+
+def _log_regions(log):
+    """the top-level statements of Logger._log between `log_record = {...}` and the patchers, split into the argument
+    preparation (blocks guarded by lazy / capture / record) and the message chain (everything that touches
+    colored_message / colors / log_record['message']).  The preparation must be complete before the message is
+    formatted; patchers run after it (they see, and may replace, the formatted message)."""
+    body = log.body
+    i_rec = [i for i, s in enumerate(body) if isinstance(s, ast.Assign) and ast.unparse(s.targets[0]) == "log_record"
+             and isinstance(s.value, ast.Dict)]
+    i_pat = [i for i, s in enumerate(body) if "patcher(log_record)" in ast.unparse(s)]
+    if len(i_rec) != 1 or not i_pat or i_rec[0] > i_pat[0]:
+        raise Unsupported("log_record = {...} / patchers not found at the top level of _log")
+    prep, chain, formatting = [], [], False
+    for st in body[i_rec[0] + 1:i_pat[0]]:
+        src = ast.unparse(st)
+        names = {n.id for n in ast.walk(st) if isinstance(n, ast.Name)}
+        if "colored_message" in names or "colors" in names or "log_record['message']" in src:
+            chain.append(st)
+            if src != "colored_message = None":
+                formatting = True
+            continue
+        g, _stmts = _guarded(st)
+        gnames = {n.id for n in ast.walk(g) if isinstance(n, ast.Name)} if g is not None else set()
+        if gnames & {"lazy", "capture", "record"}:
+            if formatting:
+                raise Unsupported("argument preparation after the message is formatted: " + src[:80])
+            prep.append(st)
+        elif names & {"args", "kwargs", "log_record", "message"}:
+            raise Unsupported("statement on the arguments between the record and the patchers: " + src[:80])
+    for st in body[:i_rec[0]]:
+        if "colored_message" in ast.unparse(st):
+            raise Unsupported("colored_message used before the record exists")
+    for st in body[i_pat[0]:]:
+        if "log_record['message'] =" in ast.unparse(st) or "colored_message =" in ast.unparse(st):
+            raise Unsupported("message assigned after the patchers")
+    if not chain:
+        raise Unsupported("message chain of _log not found")
+    return prep, chain, body[i_rec[0]].value
+
+
+def _log_message_chain(log):
+    return _log_regions(log)[1]
+
+
+def _log_prep(log):
+    """the statements of Logger._log between `log_record = {...}` and the `if colors:` chain: the lazy / capture /
+    record blocks in SOURCE ORDER, their guards, the order in which the lazy block evaluates args and kwargs,
+    the keyword the record is bound to and the conflict check that precedes the binding.  Anything else that
+    touches args / kwargs / log_record there fails closed."""
+    prep_stmts, _chain, rec = _log_regions(log)
+    msg = [ast.unparse(v) for k, v in zip(rec.keys, rec.values) if isinstance(k, ast.Constant) and k.value == "message"]
+    if msg != ["str(message)"]:
+        raise Unsupported("log_record['message'] is not initialised with str(message): %r" % msg)
+    steps, guards, lazy_order, key, checked = [], {}, [], None, False
+    for st in prep_stmts:
+        g, stmts = _guarded(st)
+        names = {n.id for s in stmts for n in ast.walk(s) if isinstance(n, ast.Name)}
+        if g is None:
+            if names & {"args", "kwargs", "log_record", "message"}:
+                raise Unsupported("unguarded statement on the arguments before the message chain: " + ast.unparse(st)[:80])
+            continue
+        kind = None
+        for s in stmts:
+            lp = _lazy_part(s)
+            src = ast.unparse(s)
+            if lp is not None:
+                k2 = "forceLazy"
+                if lp in lazy_order:
+                    raise Unsupported("lazy block evaluates %s twice" % lp)
+                lazy_order.append(lp)
+            elif src == "log_record['extra'].update(kwargs)":
+                k2 = "captureExtra"
+            elif isinstance(s, ast.If) and not s.orelse and len(s.body) == 1 and isinstance(s.body[0], ast.Raise) \
+                    and ast.unparse(s.body[0].exc).startswith("TypeError(") and isinstance(s.test, ast.Compare) \
+                    and len(s.test.ops) == 1 and isinstance(s.test.ops[0], ast.In) \
+                    and ast.unparse(s.test.comparators[0]) == "kwargs" and isinstance(s.test.left, ast.Constant):
+                k2 = "bindRecord"
+                if key is not None:
+                    raise Unsupported("conflict check after the record is bound")
+                checked = s.test.left.value
+            elif (isinstance(s, ast.Expr) and isinstance(s.value, ast.Call) and ast.unparse(s.value.func) == "kwargs.update"
+                  and not s.value.args and len(s.value.keywords) == 1 and ast.unparse(s.value.keywords[0].value) == "log_record"):
+                k2, key = "bindRecord", s.value.keywords[0].arg
+            elif (isinstance(s, ast.Assign) and len(s.targets) == 1 and isinstance(s.targets[0], ast.Subscript)
+                  and ast.unparse(s.targets[0].value) == "kwargs" and isinstance(s.targets[0].slice, ast.Constant)
+                  and ast.unparse(s.value) == "log_record"):
+                k2, key = "bindRecord", s.targets[0].slice.value
+            else:
+                raise Unsupported("statement of a preparation block: " + src[:80])
+            if kind not in (None, k2):
+                raise Unsupported("one block mixes %s and %s" % (kind, k2))
+            kind = k2
+        if kind is None:
+            raise Unsupported("empty preparation block")
+        gs = _prep_cond(g)
+        if kind in guards:
+            if guards[kind] != gs or steps[-1] != kind:
+                raise Unsupported("preparation step %s is split with different guards / interleaved" % kind)
+        else:
+            guards[kind] = gs
+            steps.append(kind)
+    if sorted(steps) != ["bindRecord", "captureExtra", "forceLazy"]:
+        raise Unsupported("preparation blocks found: %r" % steps)
+    if key is None or checked != key:
+        raise Unsupported("record keyword %r is bound without the conflict check on the same key (%r)" % (key, checked))
+    if sorted(lazy_order) != ["args", "kwargs"]:
+        raise Unsupported("lazy block evaluates %r" % lazy_order)
+    out = "/-- the blocks of `Logger._log` between `log_record = {…}` and the message chain, in source order -/\n"
+    out += "def logPrep : List PrepStep := [%s]\n" % ", ".join("PrepStep." + s for s in steps)
+    out += "/-- the order in which the `lazy` block calls the arguments -/\n"
+    out += "def lazyOrder : List LazyPart := [%s]\n" % ", ".join("LazyPart." + s for s in lazy_order)
+    out += "def lazyGuard (lazy capture record colors hasArgs hasKwargs : Bool) : Bool := %s\n" % guards["forceLazy"]
+    out += "def captureGuard (lazy capture record colors hasArgs hasKwargs : Bool) : Bool := %s\n" % guards["captureExtra"]
+    out += "def recordGuard (lazy capture record colors hasArgs hasKwargs : Bool) : Bool := %s\n" % guards["bindRecord"]
+    out += "/-- the keyword `opt(record=True)` binds the record to; a caller's keyword of that name is a `TypeError` -/\n"
+    out += "def recordKey : Py.Str := %s\n\n" % lean_chars(key)
+    return out
+
+
 def _cond(node):
     """conditions of Handler.emit / Logger._log over the four/three boolean inputs"""
     if isinstance(node, ast.BoolOp):
@@ -450,6 +665,236 @@ def _emit_tree(node_list):
     return "(" + _emit_leaf(node_list) + ")"
 
 
+# ----------------------------------------------------------------------------- Round 5: decision chains as truth tables
+# The `if/elif/else` chains of Logger._log (message) and Handler.emit (formatting) are no longer translated
+# syntactically: they are EXECUTED abstractly for every assignment of their boolean inputs and emitted as a
+# canonical decision table.  Any restructuring that keeps the decisions (hoisted `colored_message = None`, merged
+# branches, nested ifs, renamed temporaries) yields the byte-identical table; a changed decision changes a row.
+import itertools
+
+
+def _beval(node, atoms, env):
+    """evaluate a condition over boolean atoms (source text -> variable, or '!variable')"""
+    if isinstance(node, ast.BoolOp):
+        vals = [_beval(v, atoms, env) for v in node.values]
+        return all(vals) if isinstance(node.op, ast.And) else any(vals)
+    if isinstance(node, ast.UnaryOp) and isinstance(node.op, ast.Not):
+        return not _beval(node.operand, atoms, env)
+    src = ast.unparse(node)
+    if src in atoms:
+        a = atoms[src]
+        return (not env[a[1:]]) if a.startswith("!") else env[a]
+    raise Unsupported("condition " + src)
+
+
+def _lean_table(name, params, ret, rows, doc):
+    """`def name (params : Bool) : ret := match … with | rows`"""
+    out = "/-- %s -/\n" % doc
+    out += "def %s (%s : Bool) : %s :=\n  match %s with\n" % (name, " ".join(params), ret, ", ".join(params))
+    for vals, res in rows:
+        out += "  | %s => %s\n" % (", ".join("true" if v else "false" for v in vals), res)
+    return out + "\n"
+
+
+MSG_ATOMS = {"colors": "colors", "args": "hasArgs", "kwargs": "hasKwargs"}
+
+
+def _message_chain(stmts, env, st):
+    """abstract execution of the message chain of _log: st = {'cm': …, 'msg': …}"""
+    for s in stmts:
+        src = ast.unparse(s)
+        if isinstance(s, ast.If):
+            _message_chain(s.body if _beval(s.test, MSG_ATOMS, env) else s.orelse, env, st)
+        elif src == "colored_message = None":
+            st["cm"] = "none"
+        elif src == "colored_message = Colorizer.prepare_message(message, args, kwargs)":
+            st["cm"] = "MsgBranch.coloredFormat"
+        elif src == "colored_message = Colorizer.prepare_simple_message(str(message))":
+            st["cm"] = "MsgBranch.coloredSimple"
+        elif src == "log_record['message'] = colored_message.stripped":
+            if st["cm"] in (None, "none"):
+                raise Unsupported("colored_message.stripped read while colored_message is None/unset")
+            st["msg"] = st["cm"]
+        elif src == "log_record['message'] = message.format(*args, **kwargs)":
+            st["msg"] = "MsgBranch.strFormat"
+        else:
+            raise Unsupported("message chain statement " + src[:100])
+
+
+def _message_table(chain):
+    rows = []
+    for vals in itertools.product([False, True], repeat=3):
+        env = dict(zip(("colors", "hasArgs", "hasKwargs"), vals))
+        st = {"cm": None, "msg": "MsgBranch.untouched"}
+        _message_chain(chain, env, st)
+        if st["cm"] is None:
+            raise Unsupported("colored_message is not set on every path of the message chain")
+        # the message is the coloured one exactly when a coloured message is handed to the handlers
+        if (st["cm"] != "none") != (st["msg"] in ("MsgBranch.coloredFormat", "MsgBranch.coloredSimple")):
+            raise Unsupported("colored_message and record['message'] disagree on a path of the message chain")
+        rows.append((vals, st["msg"]))
+    return _lean_table("messageBranch", ["colors", "hasArgs", "hasKwargs"], "MsgBranch", rows,
+                       "what `Logger._log` does with the message, for every value of `colors`, `bool(args)`, `bool(kwargs)` "
+                       "(decision table obtained by executing the `if colors: … elif args or kwargs: …` chain)")
+
+
+EMIT_ATOMS = {"is_raw": "isRaw", "self._is_formatter_dynamic": "dynamic", "self._colorize": "colorize",
+              "colored_message is None": "cmNone", "colored_message is not None": "!cmNone"}
+
+
+def _emit_chain(stmts, env, st):
+    for s in stmts:
+        src = ast.unparse(s)
+        if isinstance(s, ast.If):
+            _emit_chain(s.body if _beval(s.test, EMIT_ATOMS, env) else s.orelse, env, st)
+            continue
+        if not isinstance(s, ast.Assign) or len(s.targets) != 1:
+            raise Unsupported("emit statement " + src[:80])
+        tgt, val = s.targets[0], ast.unparse(s.value)
+        tsrc = ast.unparse(tgt)
+        if tsrc == "formatted":
+            if val == "record['message']":
+                st["res"] = "Branch.rawMessage"
+            elif val == "colored_message.colorize(ansi_level)":
+                if env["cmNone"]:
+                    raise Unsupported("colored_message.colorize reached with colored_message None")
+                st["res"] = "Branch.rawColored"
+            elif val == "precomputed_format.format_map(formatter_record)":
+                if st["pre"] is None:
+                    raise Unsupported("format_map on an unknown precomputed format")
+                st["res"] = "Branch.formatMap %s %s" % (st["pre"], "true" if st["coloring"] else "false")
+            else:
+                raise Unsupported("formatted = " + val)
+        elif val in PRE and (tsrc == "precomputed_format" or (
+                isinstance(tgt, ast.Tuple) and len(tgt.elts) == 2 and all(isinstance(e, ast.Name) for e in tgt.elts)
+                and tgt.elts[1].id == "precomputed_format")):
+            if (PRE[val][0] is None) != isinstance(tgt, ast.Tuple):
+                raise Unsupported("emit statement " + src[:80])
+            st["pre"] = PRE[val][1]
+        elif tsrc == "ansi_level" and val == "self._levels_ansi_codes[level_id]":
+            continue
+        elif tsrc == "coloring_message" and ".make_coloring_message(" in val:
+            if env["cmNone"]:
+                raise Unsupported("make_coloring_message reached with colored_message None")
+            continue
+        elif tsrc == "formatter_record['message']" and val == "coloring_message":
+            st["coloring"] = True
+        else:
+            raise Unsupported("emit statement " + src[:80])
+
+
+def _emit_table(chain):
+    rows = []
+    for vals in itertools.product([False, True], repeat=4):
+        env = dict(zip(("isRaw", "dynamic", "colorize", "cmNone"), vals))
+        st = {"pre": None, "coloring": False, "res": None}
+        _emit_chain(chain, env, st)
+        if st["res"] is None:
+            raise Unsupported("a path of emit's formatting chain leaves `formatted` unset")
+        rows.append((vals, st["res"]))
+    return _lean_table("emitBranch", ["isRaw", "dynamic", "colorize", "cmNone"], "Branch", rows,
+                       "the raw / dynamic / static × colorize × coloured-message decisions of `Handler.emit` "
+                       "(decision table obtained by executing the chain for every input)")
+
+
+def _cm_dropped(em, chain_line):
+    """`if colored_message is not None and colored_message.stripped != record["message"]: colored_message = None`
+    – the statements before the formatting chain that reset colored_message, as a table over
+    (a coloured message was handed over, its stripped text differs from record["message"])"""
+    atoms = {"colored_message is not None": "given", "colored_message is None": "!given",
+             "colored_message.stripped != record['message']": "differs",
+             "colored_message.stripped == record['message']": "!differs",
+             "record['message'] != colored_message.stripped": "differs"}
+    resets = [n for n in ast.walk(em) if isinstance(n, ast.If) and n.lineno < chain_line and any(
+        ast.unparse(x) == "colored_message = None" for x in ast.walk(n) if isinstance(x, ast.Assign))]
+    resets = [n for n in resets if not any(n is not m and n in list(ast.walk(m)) for m in resets)]
+    if not resets:
+        raise Unsupported("emit never compares colored_message.stripped with record['message']")
+    rows = []
+    for vals in itertools.product([False, True], repeat=2):
+        env = dict(zip(("given", "differs"), vals))
+        cm = env["given"]
+        for n in resets:
+            if n.orelse or [ast.unparse(x) for x in n.body] != ["colored_message = None"]:
+                raise Unsupported("reset of colored_message: " + ast.unparse(n)[:80])
+            # `and` short-circuits: `.stripped` is only read when a coloured message is there
+            if _beval(n.test, atoms, dict(env, given=cm)):
+                cm = False
+        rows.append((vals, "true" if (env["given"] and not cm) else "false"))
+    return _lean_table("cmDropped", ["given", "differs"], "Bool", rows,
+                       "is the coloured message handed to `emit` discarded before formatting (a patcher replaced "
+                       "`record[\"message\"]`)")
+
+
+def _memoize(htree):
+    """`memoize(function)` is `functools.lru_cache(maxsize=N)(function)`; both prepare functions are memoised"""
+    fn = find_func(htree, "memoize")
+    rets = [n for n in ast.walk(fn) if isinstance(n, ast.Return)]
+    if len(rets) != 1:
+        raise Unsupported("memoize has %d return statements" % len(rets))
+    c = rets[0].value
+    ok = (isinstance(c, ast.Call) and len(c.args) == 1 and ast.unparse(c.args[0]) == fn.args.args[0].arg and not c.keywords
+          and isinstance(c.func, ast.Call) and ast.unparse(c.func.func) in ("functools.lru_cache", "lru_cache")
+          and not c.func.args and [k.arg for k in c.func.keywords] == ["maxsize"]
+          and isinstance(c.func.keywords[0].value, ast.Constant) and isinstance(c.func.keywords[0].value.value, int)
+          and not isinstance(c.func.keywords[0].value.value, bool) and c.func.keywords[0].value.value >= 0)
+    if not ok:
+        raise Unsupported("memoize is not functools.lru_cache(maxsize=<int>)(function): " + ast.unparse(rets[0])[:80])
+    calls = [ast.unparse(n) for n in ast.walk(htree) if isinstance(n, ast.Call) and ast.unparse(n.func) == "memoize"]
+    counts = [calls.count("memoize(%s)" % f) for f in ("prepare_colored_format", "prepare_stripped_format")]
+    if counts[0] < 1 or counts[0] != counts[1] or len(calls) != counts[0] + counts[1]:
+        raise Unsupported("the dynamic-format memoizers are not memoize(prepare_colored_format) / memoize(prepare_stripped_format)")
+    out = "/-- `functools.lru_cache(maxsize=…)` around the preparation of a dynamic format -/\n"
+    out += "def memoizeMaxsize : Nat := %d\n\n" % c.func.keywords[0].value.value
+    return out
+
+
+SINK_KINDS = [("File", "PathLike"), ("Stream", "'write'"), ("Standard", "logging.Handler"),
+              ("Coroutine", "iscoroutinefunction"), ("Callable", "callable(sink)")]
+
+
+def _terminators(add):
+    """the terminator of each sink kind: the last constant assigned in the kind's branch of the sink dispatch,
+    or the constant assigned before the dispatch when the branch assigns none"""
+    chain = [n for n in add.body if isinstance(n, ast.If) and "PathLike" in ast.unparse(n.test)]
+    if len(chain) != 1:
+        raise Unsupported("sink dispatch of Logger.add")
+    default = None
+    for n in add.body:
+        if n is chain[0]:
+            break
+        if isinstance(n, ast.Assign) and ast.unparse(n.targets[0]) == "terminator":
+            default = _const_str(n.value)
+        elif any(isinstance(x, ast.Name) and x.id == "terminator" and isinstance(x.ctx, ast.Store) for x in ast.walk(n)):
+            raise Unsupported("terminator assigned inside a compound statement before the sink dispatch")
+    branches, n = [], chain[0]
+    while True:
+        branches.append((ast.unparse(n.test), n.body))
+        if len(n.orelse) == 1 and isinstance(n.orelse[0], ast.If):
+            n = n.orelse[0]
+        else:
+            break
+    for n2 in add.body[add.body.index(chain[0]) + 1:]:
+        if any(isinstance(x, ast.Name) and x.id == "terminator" and isinstance(x.ctx, ast.Store) for x in ast.walk(n2)):
+            raise Unsupported("terminator assigned after the sink dispatch")
+    if len(branches) != len(SINK_KINDS):
+        raise Unsupported("sink dispatch has %d branches" % len(branches))
+    out = ""
+    for (kind, mark), (test, body) in zip(SINK_KINDS, branches):
+        if mark not in test:
+            raise Unsupported("sink dispatch branch for %s: %s" % (kind, test[:60]))
+        v = default
+        for st in body:
+            if isinstance(st, ast.Assign) and ast.unparse(st.targets[0]) == "terminator":
+                v = _const_str(st.value)
+            elif any(isinstance(x, ast.Name) and x.id == "terminator" and isinstance(x.ctx, ast.Store) for x in ast.walk(st)):
+                raise Unsupported("terminator assigned in a nested statement of the %s branch" % kind)
+        if v is None:
+            raise Unsupported("no terminator for " + kind)
+        out += "def terminator%s : Py.Str := %s\n" % (kind, lean_chars(v))
+    return out + "\n"
+
+
 def generate():
     errors = []
     body = "import LoguruModel.Format.Base\nset_option linter.unusedVariables false\nnamespace Format.Gen\nopen Format\n\n"
@@ -466,6 +911,7 @@ def generate():
             raise Unsupported("auto_arg_index default")
         body += "def autoArgIndexDefault : Nat := %d\n\n" % a.value
         body += _numbering_rule(pwf)
+        body += _field_eval(pwf)
         body += _feed_rules(pwf, "With")
         body += _feed_rules(pwo, "Without")
         body += _field_parts(pwo, ccls)
@@ -488,57 +934,23 @@ def generate():
         Tr.need(t, "str")
         body += "/-- `%s` -/\n" % ast.unparse(comp[0].args[0])
         body += "def composeFormat (format terminator : Py.Str) : Py.Str := %s\n" % term
-        terms = []
-        for n in ast.walk(add):
-            if isinstance(n, ast.Assign) and ast.unparse(n.targets[0]) == "terminator":
-                terms.append(_const_str(n.value))
-        if len(terms) != 5:
-            raise Unsupported("expected 5 terminator assignments (file, stream, logging.Handler, coroutine, callable), got %d" % len(terms))
-        for nm, v in zip(("File", "Stream", "Standard", "Coroutine", "Callable"), terms):
-            body += "def terminator%s : Py.Str := %s\n" % (nm, lean_chars(v))
-        body += "\n"
+        body += _terminators(add)
 
         # Logger._log: which formatter the message goes through
         log = find_func(ltree, "_log", "Logger")
-        chain = [n for n in log.body if isinstance(n, ast.If) and ast.unparse(n.test) == "colors"]
-        if len(chain) != 1:
-            raise Unsupported("`if colors:` chain of _log")
-        n = chain[0]
-
-        def leaf(stmts):
-            srcs = [ast.unparse(s) for s in stmts]
-            if srcs == ["colored_message = None", "log_record['message'] = message.format(*args, **kwargs)"]:
-                return "MsgBranch.strFormat"
-            if srcs == ["colored_message = None"]:
-                return "MsgBranch.untouched"
-            if srcs == ["colored_message = Colorizer.prepare_message(message, args, kwargs)"]:
-                return "MsgBranch.coloredFormat"
-            if srcs == ["colored_message = Colorizer.prepare_simple_message(str(message))"]:
-                return "MsgBranch.coloredSimple"
-            raise Unsupported("message branch " + " ; ".join(srcs)[:120])
-
-        def tree(stmts):
-            stmts = [s for s in stmts if ast.unparse(s) != "log_record['message'] = colored_message.stripped"]
-            if len(stmts) == 1 and isinstance(stmts[0], ast.If):
-                s = stmts[0]
-                if not s.orelse:
-                    raise Unsupported("if without else in _log's message chain")
-                return "(if %s then %s else %s)" % (_cond(s.test), tree(s.body), tree(s.orelse))
-            return leaf(stmts)
-
-        if ast.unparse(n.body[-1]) != "log_record['message'] = colored_message.stripped":
-            raise Unsupported("coloured branch does not store colored_message.stripped")
-        body += "/-- the `if colors: … elif args or kwargs: … else: …` chain of `Logger._log` -/\n"
-        body += "def messageBranch (colors hasArgs hasKwargs : Bool) : MsgBranch := %s\n\n" % tree([n])
+        chain = _log_message_chain(log)
+        body += _message_table(chain)
+        body += _log_prep(log)
 
         # Handler.emit: the formatting chain
         htree, _ = parse_module("_handler.py")
         em = find_func(htree, "emit", "Handler")
-        chain = [s for s in ast.walk(em) if isinstance(s, ast.If) and ast.unparse(s.test) == "is_raw"]
+        chain = [s for s in ast.walk(em) if isinstance(s, ast.If) and ast.unparse(s.test) in ("is_raw", "not is_raw")]
         if len(chain) != 1:
             raise Unsupported("`if is_raw:` chain of Handler.emit")
-        body += "/-- the raw / dynamic / static × colorize × coloured-message chain of `Handler.emit` -/\n"
-        body += "def emitBranch (isRaw dynamic colorize cmNone : Bool) : Branch := %s\n" % _emit_tree(chain)
+        body += _emit_table(chain)
+        body += _cm_dropped(em, chain[0].lineno)
+        body += _memoize(htree)
         # dynamic formats are prepared by prepare_format without any suffix; Message(formatted) is what the sink gets
         for fname in ("prepare_stripped_format", "prepare_colored_format"):
             fn = find_func(htree, fname)
